@@ -225,9 +225,10 @@ Parse(fmt, bs, dev) == CASE fmt = "tap" -> ParseTap(bs, dev) [] fmt = "tzx" -> P
 InfoLine(fmt, b) == <<b.n, b.id, IF b.hasdata = 1 /\ ~(fmt = "tzx" /\ b.id = 21) THEN Len(b.data) ELSE -1>>
 
 \* write_pzx (bin2tap): what a list of byte blocks becomes - PULS, DATA (tail 945, starts high), PAUS between
+FlagOf(data) == IF Len(data) > 0 THEN data[1] ELSE 0          \* (a block without bytes: header-length pilot)
 StdPzxOf(datas, dev) ==
   LET per(k) == (IF k > 1 THEN << TM(1, <<>>, <<>>, <<>>, 1000 * MsT, 8, 0, 0, 0, 0) >> ELSE <<>>)
-                \o << [StdTM(datas[k][1], 0, dev) EXCEPT !.zero = <<>>, !.one = <<>>, !.pol = 0],
+                \o << [StdTM(FlagOf(datas[k]), 0, dev) EXCEPT !.zero = <<>>, !.one = <<>>, !.pol = 0],
                       TM(1, <<>>, <<855, 855>>, <<1710, 1710>>, 0, 8, 0, 945, 1, 0) >>
       RECURSIVE All(_)
       All(k) == IF k > Len(datas) THEN <<>> ELSE per(k) \o All(k + 1)
